@@ -327,6 +327,41 @@ Fixpoint reader_loop_h (d : dialect) (out_cap : nat) (skip_first : bool) (h : hs
       else reader_loop_h d out_cap skip_first h' rest
   end.
 
+(* the same, also returning the state the reader is left in at PollPull::Exhausted (decoder + records buffer) *)
+Fixpoint reader_run (d : dialect) (out_cap : nat) (skip_first : bool) (h : hstate)
+         (chunks : list (list N)) : option (list (list (list N))) * hstate :=
+  let emit (br : byte_records) := option_map (fun rs => if skip_first then tl rs else rs) (records_of br) in
+  match chunks with
+  | [] => let h' := decode_h d h [] in (emit (snd (h_st h')), h')
+  | ch :: rest =>
+      let h' := decode_h d h ch in
+      if out_cap <=? length (bounds (snd (h_st h')))
+      then let r := reader_run d out_cap false
+                      {| h_started := h_started h'; h_prefix := h_prefix h';
+                         h_st := (fst (h_st h'), clear_completed (snd (h_st h'))) |} rest in
+           (opt_app (emit (snd (h_st h'))) (fst r), snd r)
+      else reader_run d out_cap skip_first h' rest
+  end.
+
+(* CsvReader::prepare: `records.clear_all(); decoder.reset();` (csv_core Reader::reset: start state, output_pos = 0,
+   has_read = false; CsvDecoder: started = false, bom_prefix cleared) and `Reading { skip_first: has_header }` *)
+Definition prepare (h : hstate) : hstate := h_init.
+(* OLD (before decoder.reset() was added): only the records were cleared; csv_core's state, has_read and
+   CsvDecoder.started stayed as the previous file left them *)
+Definition prepare_old (h : hstate) : hstate :=
+  {| h_started := h_started h; h_prefix := h_prefix h; h_st := (fst (h_st h), clear_all (snd (h_st h))) |}.
+
+(* ReadCsv::poll_pull over the file queue of one partition: Init -> Opening -> reader.prepare(file) -> Scanning until
+   Exhausted -> Init ...; every file is given as the list of its (non-empty) reads *)
+Fixpoint read_queue (prep : hstate -> hstate) (d : dialect) (out_cap : nat) (has_header : bool) (h : hstate)
+         (files : list (list (list N))) : option (list (list (list N))) :=
+  match files with
+  | [] => Some []
+  | f :: rest =>
+      let r := reader_run d out_cap has_header (prep h) f in
+      opt_app (fst r) (read_queue prep d out_cap has_header (snd r) rest)
+  end.
+
 Definition read_file_h (d : dialect) (has_header : bool) (out_cap : nat) (chunks : list (list N)) :=
   reader_loop_h d out_cap has_header h_init chunks.
 Definition read_file (d : dialect) (has_header : bool) (out_cap : nat) (chunks : list (list N)) :=
